@@ -20,7 +20,8 @@ ASSUMPTIONS = ['visibility model: all four sensors within +-60 deg horizontal / 
                'the base station above the deck plane', 'measurements are exact (float64) V1 sweep angles']
 REQUIRED = ['mon.rooms_solved', 'mon.bs_poses_compared', 'mon.cf_poses_compared', 'mon.matcher_groups_checked',
             'mon.unlinkable_rooms', 'mon.partial_visibility_rooms', 'mon.tight_time_layouts', 'mon.matcher_streams',
-            'mon.matcher_streams_with_pause_shorter_than_window', 'mon.rooms_with_windows_of_three_base_stations']
+            'mon.matcher_streams_with_pause_shorter_than_window', 'mon.rooms_with_windows_of_three_base_stations', 'mon.axis_aligned_rooms',
+            'mon.pose_averages_of_near_identical_estimates_checked']
 DESC_TIMEOUT = 1800
 
 
@@ -61,6 +62,9 @@ def run_room(ctx, rseed, mode):
         for k, seen in enumerate(geo):
             w = order[min(nwin - 1, k // per)]
             vis.append([i for i in seen if i in ids_w[w:w + 3]])
+    elif mode == 'axis':
+        rm = lhgen.axis_room(rseed)
+        vis = lhgen.visibility(rm, partial_seed=rseed + 1, drop=0.0)
     else:
         rm = lhgen.room(rseed)
         drop = 0.0 if mode == 'full' else rnd.choice((0.2, 0.4))
@@ -132,6 +136,12 @@ def run_room(ctx, rseed, mode):
         mech = 'lh:linked-system-rejected'
         if len(matched) <= 5:
             mech = 'lh:sparse-room:mirror-solution-or-unconverged'      # same known finding: too few samples for the vote
+        elif 'no reference' in str(e):
+            # same known finding: the vote settled on the mirror cluster and then EVERY error-free sample was
+            # discarded as an outlier, nothing is left to take the reference from
+            mech = 'lh:sparse-room:mirror-solution-or-unconverged'
+        if mech.startswith('lh:sparse-room'):
+            ctx.count('mon.axis_rooms_hit_by_the_known_finding' if mode == 'axis' else 'mon.other_rooms_hit_by_the_known_finding')
         ctx.violate(mech, {'room_seed': rseed, 'error': str(e), 'n_bs': len(rm['ids']), 'n_samples': len(used)}, replay=rp)
         return 'done'
     except Exception as e:  # noqa
@@ -174,6 +184,7 @@ def run_room(ctx, rseed, mode):
         # samples (<= 5), it discarded error-free samples as outliers, or the solver reports success=False
         bad = ('lh:sparse-room:mirror-solution-or-unconverged', dict(bad[1], matched_samples=len(matched),
                                                                      samples_kept_by_estimator=len(cleaned)))
+        ctx.count('mon.axis_rooms_hit_by_the_known_finding' if mode == 'axis' else 'mon.other_rooms_hit_by_the_known_finding')
     if bad is not None:
         bad[1].update({'room_seed': rseed, 'mode': mode, 'n_bs': len(rm['ids']), 'n_samples': len(ks),
                        'visibility': [seen for _, seen in used][:12]})
@@ -184,6 +195,8 @@ def run_room(ctx, rseed, mode):
         ctx.count('mon.partial_visibility_rooms')
     if mode == 'windows':
         ctx.count('mon.rooms_with_windows_of_three_base_stations')
+    if mode == 'axis':
+        ctx.count('mon.axis_aligned_rooms')
     ctx.count('worst_translation_nm', 0)
     ctx.nontrivial((mode, rseed))
     return (worst_t, worst_r, len(rm['ids']), len(ks))
@@ -250,10 +263,61 @@ def run_matcher_streams(ctx, seed, n):
             return
 
 
+_avg_state = {'installed': False, 'ctx': None}
+
+
+def install_average_monitor(ctx):
+    """Postcondition hook on the estimator's pose averaging (an "invariant at a hook"): when the estimates handed to it
+    are near-identical (pairwise rotation angle < 0.1 rad, positions within 0.1 m) the average must lie among them.
+    Valid for any sound averaging rule; skipped when the inputs are spread out (mirror solutions mixed in)."""
+    import numpy as np
+    from cflib.localization.lighthouse_initial_estimator import LighthouseInitialEstimator as E
+    _avg_state['ctx'] = ctx
+    if _avg_state['installed']:
+        return
+    _avg_state['installed'] = True
+    orig = E._avarage_poses.__func__
+
+    def monitored(cls, poses):
+        out = orig(cls, poses)
+        c = _avg_state['ctx']
+        try:
+            Rs = [np.asarray(p.rot_matrix) for p in poses]
+            ts = [np.asarray(p.translation) for p in poses]
+            if len(poses) >= 1 and c is not None:
+                spread_r = max([lhgen.rot_angle(a.T @ b) for a in Rs for b in Rs] or [0.0])
+                spread_t = max([float(np.linalg.norm(a - b)) for a in ts for b in ts] or [0.0])
+                if spread_r < 0.1 and spread_t < 0.1:
+                    c.count('mon.pose_averages_of_near_identical_estimates_checked')
+                    er = max(lhgen.rot_angle(np.asarray(out.rot_matrix).T @ a) for a in Rs)
+                    et = max(float(np.linalg.norm(np.asarray(out.translation) - a)) for a in ts)
+                    if er > spread_r + 1e-6 or et > spread_t + 1e-9:
+                        c.violate('lh:pose-average-outside-the-spread-of-near-identical-estimates',
+                                  {'inputs': len(poses), 'input_rotation_spread_rad': spread_r, 'average_off_by_rad': er,
+                                   'input_position_spread_m': spread_t, 'average_off_by_m': et})
+        except Exception:   # the monitor must never disturb the pipeline
+            pass
+        return out
+    E._avarage_poses = classmethod(monitored)
+
+
+def post_check(counters, tier):
+    """Axis-aligned rooms hit the known estimator finding in about 14 % of the rooms on the repaired tree (41 of 300,
+    measured); a rate far above that is something else."""
+    bad = counters.get('mon.axis_rooms_hit_by_the_known_finding', 0)
+    good = counters.get('mon.axis_aligned_rooms', 0)
+    if bad + good >= 40 and bad > 0.38 * (bad + good):
+        return [('lh:axis-aligned-rooms:initial-estimate-failures-far-above-the-known-rate',
+                 {'axis_rooms': bad + good, 'failed': bad, 'known_rate': 0.14})]
+    return []
+
+
 def run(desc, ctx):
     core.setup_path()
     import warnings
     warnings.filterwarnings('ignore')
+    if not desc.get('matcher_streams'):
+        install_average_monitor(ctx)
     if desc.get('matcher_streams'):
         run_matcher_streams(ctx, desc['seed'], desc['matcher_streams'])
         return
@@ -262,10 +326,10 @@ def run(desc, ctx):
         return
     worst = (0.0, 0.0)
     first = None
-    known_before = sum(1 for v in ctx.violations if v['mech'] == 'lh:sparse-room:mirror-solution-or-unconverged')
+    known_before = ctx.counters.get('mon.other_rooms_hit_by_the_known_finding', 0)
     for j in range(desc['rooms']):
         rseed = desc['seed'] * 1000 + j
-        mode = ('full', 'partial', 'windows', 'partial', 'unlinkable', 'full', 'windows', 'partial')[j % 8]
+        mode = ('full', 'partial', 'windows', 'axis', 'unlinkable', 'full', 'windows', 'partial', 'axis', 'axis')[j % 10]
         r = run_room(ctx, rseed, mode)
         tries = 0
         while r == 'skip' and tries < 30:
@@ -278,7 +342,9 @@ def run(desc, ctx):
                               'translation_error_m': r[0], 'rotation_error_rad': r[1]}
     # the known poor-initial-estimate finding occurs in about 1 of 3000 rooms; three or more in one batch of 16 rooms is
     # not that finding any more
-    nk = getattr(ctx, '_per_mech', {}).get('lh:sparse-room:mirror-solution-or-unconverged', 0) - known_before
+    # (tidy axis-aligned rooms hit the finding far more often, about one in seven: they are judged on their rate over the
+    # whole run, see post_check)
+    nk = ctx.counters.get('mon.other_rooms_hit_by_the_known_finding', 0) - known_before
     if nk >= 3:
         ctx.violate('lh:initial-estimate-failures-far-above-the-known-rate', {'failures_in_batch_of_16_rooms': nk, 'batch_seed': desc['seed']})
     ctx.sample({'first_room': first, 'worst_translation_error_m_in_batch': worst[0],
